@@ -165,14 +165,30 @@ fn c08(s: &Solution, grid: &[(f64, Vec<f64>)], specs: &[EventSpec], dir: f64, ym
             if g.abs() > bound {
                 v.push(("root".into(), format!("event {}: |g(t_e,y_e)| = {:e} exceeds L*(4e-12+8eps|t|) = {:e} (t_e={:e})", i, g.abs(), bound, t)));
             }
-            // configured direction, judged at the bracketing endpoints when they have strict opposite signs
-            let (ga, gb) = (sp.g(gt[k], gy[k]), sp.g(gt[k + 1], gy[k + 1]));
-            if (ga < 0.0 && gb > 0.0) || (ga > 0.0 && gb < 0.0) {
-                let rising = gb > ga;
-                match sp.dir {
-                    Direction::Positive if !rising => v.push(("direction".into(), format!("event {} (Positive) reported for a falling crossing at t={:e}", i, t))),
-                    Direction::Negative if rising => v.push(("direction".into(), format!("event {} (Negative) reported for a rising crossing at t={:e}", i, t))),
-                    _ => {}
+            // configured direction, judged at the bracketing endpoints when they have strict opposite signs.
+            // An event located exactly on an accepted endpoint belongs to either adjacent step (a function
+            // that touches zero there crosses down in one and up in the other): every bracketing step counts.
+            let _ = k;
+            let mut judged = 0;
+            let mut agree = 0;
+            for kk in (0..gt.len() - 1).filter(|&kk| !before(*t, gt[kk], dir) && !before(gt[kk + 1], *t, dir)) {
+                let (ga, gb) = (sp.g(gt[kk], gy[kk]), sp.g(gt[kk + 1], gy[kk + 1]));
+                if (ga < 0.0 && gb > 0.0) || (ga > 0.0 && gb < 0.0) {
+                    judged += 1;
+                    let rising = gb > ga;
+                    let ok = match sp.dir {
+                        Direction::Positive => rising,
+                        Direction::Negative => !rising,
+                        _ => true,
+                    };
+                    if ok {
+                        agree += 1;
+                    }
+                }
+            }
+            if judged > 0 {
+                if agree == 0 {
+                    v.push(("direction".into(), format!("event {} ({:?}) reported at t={:e} although every bracketing step crosses in the other direction", i, sp.dir, t)));
                 }
                 tags.push("direction-judged");
             }
